@@ -54,7 +54,25 @@ def reg_task(task):
     impl_matrix = {k: [i for i, itf in enumerate(IFACES) if isinstance(KS[k], itf)] for k in range(len(KS))}
     mstr = ';'.join('%d:%s' % (k, '.'.join(map(str, v))) for k, v in impl_matrix.items())
     log = []
-    PLUGS = [(lambda t, s, c, i=i: log.append(i)) for i in range(3)]
+    class _Rec:
+        def __init__(self, i): self.i = i
+        def hook(self, t, s, c): log.append(self.i)
+
+    class _Plugs:
+        """plugin 0 is a plain function; plugins 1 and 2 are bound methods: every access builds a NEW method object
+        that is equal to, but not identical with, the one registered earlier (what an embedder writing
+        add_plugin(scope, ext.hook) ... remove_plugin(scope, ext.hook) does)"""
+        def __init__(self):
+            self.f0 = (lambda t, s, c: log.append(0))
+            self.recs = {1: _Rec(1), 2: _Rec(2)}
+        def __getitem__(self, k):
+            return self.f0 if k == 0 else self.recs[k].hook
+        def index(self, p):
+            for k in range(3):
+                if self[k] == p:
+                    return k
+            raise ValueError(p)
+    PLUGS = _Plugs()
     saved = (copy.copy(F._plugins), {k: list(v) for k, v in F._plugins.items()}, dict(F._contracts),
              dict(F._contract_interfaces), dict(F.opcode_aliases))
     stats = collections.Counter()
